@@ -6,13 +6,15 @@ because the kernel evaluation takes ~15 s.
 namespace RichModel
 open AsciiStr
 namespace Style
+variable {T : StrTables} [hT : T.Lawful]
 
 theorem numbered_colors_wf_tbl :
-    (List.range 256).all (fun n => wfColor StyleVariant.fixed (numberedColor n)) = true := by
+    (List.range 256).all (fun n => asciiColorName (numberedColor n).name &&
+      wfColorT StrTables.ascii StyleVariant.fixed (numberedColor n)) = true := by
   decide +kernel
 
-theorem numbered_color_wf (v : StyleVariant) {n : Nat} (hn : n < 256) : wfColor v (numberedColor n) = true :=
-  wfColor_indep (List.all_eq_true.mp numbered_colors_wf_tbl n (List.mem_range.mpr hn))
+theorem numbered_color_wf (v : StyleVariant) {n : Nat} (hn : n < 256) : wfColorT T v (numberedColor n) = true :=
+  wfColor_of_ascii (List.all_eq_true.mp numbered_colors_wf_tbl n (List.mem_range.mpr hn))
 
 end Style
 end RichModel
